@@ -9,7 +9,7 @@ PROP = 'C06'
 META = dict(
     explanation='Whole runs of the real split operator (under with_memory_store, top level, under group_by with interleaved keys, nested in roll/split) '
                 'on N symbolic integer items are compared with the reference interpreter (maximal runs of equal predicate value, by !=, closed at key completion, '
-                'no segment for an empty key); predicates return fresh tuples / run-time built strings so equality and identity differ. '
+                'no segment for an empty key); predicates return fresh tuples / run-time built strings so equality and identity differ, and in one family a shared object that is != itself (NaN) so identity must not short-cut the comparison. '
                 'A one-step form runs split_mux from an arbitrary stored predicate (NOTSET or a value) on one item.',
     bounds=dict(quick='N <= 5 items (4 for the v//3 predicate and nested contexts), any integers; predicates v%3 tuple, v%2 string, v//3 tuple; contexts root, group_by(mod2), roll(2,2), roll(3,1), split, and completion-triggered consumers placed after split on the same key',
                 thorough='N <= 7 (root), N <= 5 nested; same predicates and contexts'),
@@ -79,7 +79,32 @@ def step(p):
     return mk('split_step', [('has', 'bool'), ('cur', 'int'), ('v', 'int')], [], body)
 
 
-FAMILIES = {'runs': runs, 'step': step}
+_NAN = float('nan')      # one shared object that compares != to itself
+
+
+def selfunequal(p):
+    """the predicate returns, for odd items, the SAME object every time, and that object is != itself (a shared NaN): by the statement a new segment starts
+    whenever the value differs by != from the previous one, so every odd item starts a segment.  Segments are compared as (length, digest) pairs and the
+    empty segment the implementation emits when the very first value is self-unequal is ignored (the statement neither requires nor forbids it)."""
+    from vp import refsem as R
+    from vp.catalog import _lsum
+    n = p['n']
+    pre = ['-2**40 <= v%d <= 2**40' % i for i in range(n)]
+
+    def pred(i):
+        return _NAN if i % 2 == 1 else 0.5
+
+    def body(a):
+        items = list(a)
+        real = [rs.data.split(pred, [rs.data.to_list(), rs.ops.map(lambda l: (len(l), _lsum(l)))])]
+        ref = [R.Split(pred, [R.Scan(lambda acc, i: acc + [i], list, reduce=True), R.Map(lambda l: (len(l), _lsum(l)))])]
+        got = [(t, v) for t, v in D.run_timed(items, real) if not (isinstance(v, tuple) and v[0] == 0)]
+        exp = [(t, v) for t, v in R.run(ref, items) if v[0] != 0]
+        return got == exp or fail(items=items, observed=got, expected=exp)
+    return mk('split_selfunequal', ints('v', n), pre, body)
+
+
+FAMILIES = {'runs': runs, 'step': step, 'selfunequal': selfunequal}
 
 
 def obligations(tier, seed):
@@ -101,5 +126,7 @@ def obligations(tier, seed):
     for k in (1, 2):
         for ctx in ('root', 'roll22'):
             obs.append(Ob(PROP, 'runs', dict(ctx=ctx, pred='tup3', inner='to_list', n=3, retry=k), budget=300 if q else 900, group='after an aborted subscription', bound=dict(items=3, ctx=ctx, first_subscription_aborted_after=k)))
+    for n in ((2, 3, 4) if q else (2, 3, 4, 5, 6)):
+        obs.append(Ob(PROP, 'selfunequal', dict(n=n), budget=300 if q else 900, group='self-unequal predicate value', bound=dict(items=n, predicate='shared NaN object for odd items')))
     obs.append(Ob(PROP, 'runs', dict(ctx='root', pred='tup3', inner='to_list', n=3, _twin='reach'), budget=60, expect='refute'))
     return obs
